@@ -44,6 +44,23 @@ def expect (ch : Char) : List Char → Option (List Char)
   | c :: cs => if c = ch then some cs else none
   | [] => none
 
+/-- the optional `in %domain%` segment (after white space was skipped) -/
+def domPart (cs4 : List Char) : Option (Option Name × List Char) :=
+  match cs4 with
+  | 'i' :: cs5 =>
+    match expect 'n' cs5 with
+    | none => none
+    | some cs6 =>
+      match expect '%' (skipWs K cs6) with
+      | none => none
+      | some cs7 =>
+        let (dom, cs8) := collectName K cs7
+        if dom.isEmpty then none else
+        match expect '%' cs8 with
+        | none => none
+        | some cs9 => some (some dom, skipWs K cs9)
+  | _ => some (none, cs4)
+
 /-- `collect_var_and_dom_from_operator` -/
 def collectVarDom (parseDomains : Bool) (cs : List Char) : Option (Name × Option Name × List Char) :=
   match expect '{' (skipWs K cs) with
@@ -55,24 +72,7 @@ def collectVarDom (parseDomains : Bool) (cs : List Char) : Option (Name × Optio
     | none => none
     | some cs3 =>
       let cs4 := skipWs K cs3
-      let domPart : Option (Option Name × List Char) :=
-        if parseDomains then
-          match cs4 with
-          | 'i' :: cs5 =>
-            match expect 'n' cs5 with
-            | none => none
-            | some cs6 =>
-              match expect '%' (skipWs K cs6) with
-              | none => none
-              | some cs7 =>
-                let (dom, cs8) := collectName K cs7
-                if dom.isEmpty then none else
-                match expect '%' cs8 with
-                | none => none
-                | some cs9 => some (some dom, skipWs K cs9)
-          | _ => some (none, cs4)
-        else some (none, cs4)
-      match domPart with
+      match (if parseDomains then domPart K cs4 else some (none, cs4)) with
       | none => none
       | some (dom, cs10) =>
         match expect ':' cs10 with
